@@ -128,6 +128,12 @@ def residual(e: ast.AST, subject: str, K: str, env: Optional[Dict[str, ast.AST]]
         if isinstance(b, (ast.Tuple, ast.List)) and -len(b.elts) <= e.slice.value < len(b.elts):
             return b.elts[e.slice.value]
         return ast.Subscript(value=b, slice=e.slice, ctx=ast.Load())
+    if isinstance(e, ast.Subscript):
+        b = residual(e.value, subject, K, env, depth + 1)
+        sl = residual(e.slice, subject, K, env, depth + 1)
+        if b is e.value and sl is e.slice:
+            return e
+        return ast.Subscript(value=b, slice=sl, ctx=e.ctx)
     if isinstance(e, ast.Attribute):
         b = residual(e.value, subject, K, env, depth + 1)
         return e if b is e.value else ast.Attribute(value=b, attr=e.attr, ctx=ast.Load())
@@ -137,6 +143,8 @@ def residual(e: ast.AST, subject: str, K: str, env: Optional[Dict[str, ast.AST]]
         c.keywords = [ast.keyword(arg=k.arg, value=residual(k.value, subject, K, env, depth + 1)) for k in e.keywords]
         if isinstance(e.func, ast.Name) and e.func.id in env:
             c.func = env[e.func.id]
+        elif isinstance(e.func, ast.Attribute):
+            c.func = ast.Attribute(value=residual(e.func.value, subject, K, env, depth + 1), attr=e.func.attr, ctx=ast.Load())
         return c
     return e
 
